@@ -7,6 +7,10 @@ import sys
 
 R = random.Random(5)
 COUNTER = 0
+LOG = logging.getLogger("procstate_c30")
+LOG.setLevel(logging.INFO)
+LOG.propagate = False
+LOG.addHandler(logging.NullHandler())
 
 
 def do_print():
@@ -50,8 +54,13 @@ def log_disable(level):
 
 
 def log_check():
-    if logging.root.manager.disable >= logging.ERROR:
+    # the effective behaviour of an existing logger (isEnabledFor caches its answer per logger)
+    if not LOG.isEnabledFor(logging.ERROR):
         raise RuntimeError("logging disabled")
+
+
+def log_emit():
+    LOG.error("something happened")
 
 
 def seed(x):
@@ -106,6 +115,12 @@ def t_log_both(first, delay, second):
     logging.disable(first)
     time.sleep(delay)
     logging.disable(second)
+
+
+def t_log_emit_late(delay, level):
+    time.sleep(delay)
+    logging.disable(level)
+    LOG.error("late")
 
 
 def t_close_out_late(delay):
